@@ -175,4 +175,241 @@ def add_local_text : List String :=
    "let last = len - 1;", "if locals[last].1 == ty{", "locals[last].0 += 1;", "}", "else{", "locals.push((1,ty));",
    "}", "}", "else{", "locals.push((1,ty));", "}", "LocalID(index as u32)"]
 
+/-- M3 `Func.hasInstr`: a function carries instrumentation when its entry or exit list is non-empty -/
+def func_flag_has_instr : List String :=
+  ["let Self{", "entry,exit,has_special_instr: _,current_mode: _,}", "= self;",
+   "!entry.instrs.is_empty()|| !exit.instrs.is_empty()"]
+
+/-- M3 `injectFn`: marks the function as specially instrumented and appends to the entry / exit list of the current mode; no mode is a panic -/
+def func_flag_add_instr : List String :=
+  ["self.has_special_instr = true;", "match self.current_mode{", "None =>{", "panic!('')}",
+   "Some(FuncInstrMode::Entry)=> self.entry.instrs.push(val),Some(FuncInstrMode::Exit)=> self.exit.instrs.push(val),}"]
+
+/-- M3 `Instr.hasInstr`: any of the seven lists non-empty; `Some(empty)` alternates count (they delete) -/
+def flag_has_instr : List String :=
+  ["let Self{", "before,after,alternate,semantic_after,block_entry,block_exit,block_alt,current_mode: _,}",
+   "= self;",
+   "!before.instrs.is_empty()|| !after.instrs.is_empty()|| !alternate.is_none()|| !semantic_after.instrs.is_empty()|| !block_entry.instrs.is_empty()|| !block_exit.instrs.is_empty()|| !block_alt.is_none()"]
+
+/-- the encoder's check that nothing special is left on an instruction (an error message, no change of the output) -/
+def flag_check_special_is_resolved : List String :=
+  ["let Self{", "semantic_after,block_entry,block_exit,block_alt,..}", "= self;",
+   "if !semantic_after.instrs.is_empty(){", "error!('');", "}", "if !block_entry.instrs.is_empty(){", "error!('');",
+   "}", "if !block_exit.instrs.is_empty(){", "error!('');", "}", "if !block_alt.is_none(){", "error!('');", "}"]
+
+/-- M3 `inject`: appends to the list of the current mode; `true` exactly for the four special modes; special modes on other operators panic (`c22_reject_is_loud`) -/
+def flag_add_instr : List String :=
+  ["match self.current_mode{", "None =>{", "panic!('')}", "Some(InstrumentationMode::Before)=>{",
+   "self.before.instrs.push(val);", "false}", "Some(InstrumentationMode::After)=>{", "self.after.instrs.push(val);",
+   "false}", "Some(InstrumentationMode::Alternate)=>{", "match &mut self.alternate{", "None =>{",
+   "self.alternate = Some(InjectedInstrs{", "instrs: vec![val],tag: None,}", ")}",
+   "Some(alternate)=> alternate.instrs.push(val),}", "false}", "Some(InstrumentationMode::SemanticAfter)=>{",
+   "if Self::is_block_style_op(op)|| Self::is_branching_op(op){", "self.semantic_after.instrs.push(val);", "true}",
+   "else{", "panic!('',op);", "}", "}", "Some(InstrumentationMode::BlockEntry)=>{",
+   "if Self::is_block_style_op(op){", "self.block_entry.instrs.push(val);", "true}", "else{", "panic!('',op);", "}",
+   "}", "Some(InstrumentationMode::BlockExit)=>{", "if Self::is_block_style_op(op){",
+   "self.block_exit.instrs.push(val);", "true}", "else{", "panic!('',op);", "}", "}",
+   "Some(InstrumentationMode::BlockAlt)=>{", "if Self::is_block_style_op(op){", "match &mut self.block_alt{",
+   "None =>{", "self.block_alt = Some(InjectedInstrs{", "instrs: vec![val],tag: None,}", ")}",
+   "Some(block_alt)=> block_alt.instrs.push(val),}", "true}", "else{", "panic!('',op);", "}", "}", "}"]
+
+/-- M3 `clearInstr`: empties the list of the given mode; alternates become `None` -/
+def flag_clear_instr : List String :=
+  ["match mode{", "InstrumentationMode::Before =>{", "self.before.instrs.clear();", "}",
+   "InstrumentationMode::After => self.after.instrs.clear(),InstrumentationMode::Alternate =>{",
+   "self.alternate = None;", "}",
+   "InstrumentationMode::SemanticAfter => self.semantic_after.instrs.clear(),InstrumentationMode::BlockEntry => self.block_entry.instrs.clear(),InstrumentationMode::BlockExit => self.block_exit.instrs.clear(),InstrumentationMode::BlockAlt =>{",
+   "self.block_alt = None;", "}", "}"]
+
+/-- M3 `isBlockStyle`: block, loop, if, else -/
+def flag_is_block_style_op : List String :=
+  ["matches!(op,Operator::Block{", "..}", "| Operator::Loop{", "..}", "| Operator::If{", "..}", "| Operator::Else{",
+   "..}", ")"]
+
+/-- M3 `isBranching`: br, br_if, br_table and the four br_on_* operators -/
+def flag_is_branching_op : List String :=
+  ["matches!(op,Operator::Br{", "..}", "| Operator::BrIf{", "..}", "| Operator::BrTable{", "..}",
+   "| Operator::BrOnCast{", "..}", "| Operator::BrOnCastFail{", "..}", "| Operator::BrOnNull{", "..}",
+   "| Operator::BrOnNonNull{", "..}", ")"]
+
+/-- M3 `inject` on an instruction: the flag's `add_instr` with the instruction's own operator -/
+def instruction_add_instr : List String :=
+  ["self.instr_flag.add_instr(&self.op,val)"]
+
+/-- M3 `emptyBlockAlt`: block-style operators only (panic otherwise); the block alternate becomes the empty list, whatever was recorded -/
+def instruction_empty_block_alt : List String :=
+  ["if !InstrumentationFlag::is_block_style_op(&self.op){", "panic!('',self.op);", "}",
+   "self.instr_flag.block_alt = Some(InjectedInstrs::default());"]
+
+/-- FunctionModifier (src/ir/function.rs) `inject`: at the cursor; a function-level mode, when one is selected, takes the code (M3 `injectCur`) -/
+def modifier_inject : List String :=
+  ["if self.instr_flag.current_mode.is_some(){", "self.instr_flag.add_instr(instr);", "}", "else{",
+   "if let Some(idx)= self.instr_idx{", "let is_special = self.body.instructions[idx].add_instr(instr);",
+   "self.instr_flag.has_special_instr |= is_special;", "}", "else{", "panic!('');", "}", "}"]
+
+/-- FunctionModifier (src/ir/function.rs) `inject_at`: selects the mode at (current function, given index), then adds there (M3 `injectAt`) -/
+def modifier_inject_at : List String :=
+  ["let loc = Location::Module{", "func_idx: FunctionID(0),instr_idx: idx,}", ";",
+   "self.set_instrument_mode_at(mode,loc);", "self.add_instr_at(loc,instr);"]
+
+/-- FunctionModifier (src/ir/function.rs) `set_instrument_mode_at`: leaves the function-level mode, sets the mode of the addressed instruction (`c22_instruction_mode_leaves_function_mode`) -/
+def modifier_set_instrument_mode_at : List String :=
+  ["if let Location::Module{", "instr_idx,..}", "= loc{", "self.instr_idx = Some(instr_idx);",
+   "self.instr_flag.finish_instr();", "self.body.instructions[instr_idx].instr_flag.current_mode = Some(mode);", "}",
+   "else{", "panic!('');", "}"]
+
+/-- FunctionModifier (src/ir/function.rs) `set_func_instrument_mode`: the function-level mode of the current function -/
+def modifier_set_func_instrument_mode : List String :=
+  ["self.instr_flag.current_mode = Some(mode);"]
+
+/-- FunctionModifier (src/ir/function.rs) `clear_instr_at`: clears the list of that mode on the addressed instruction -/
+def modifier_clear_instr_at : List String :=
+  ["if let Location::Module{", "instr_idx,..}", "= loc{", "self.body.clear_instr(instr_idx,mode);", "}", "else{",
+   "panic!('');", "}"]
+
+/-- FunctionModifier (src/ir/function.rs) `add_instr_at`: adds to the addressed instruction (`c15_add_instr_at_addresses_its_location`) -/
+def modifier_add_instr_at : List String :=
+  ["if let Location::Module{", "instr_idx,..}", "= loc{",
+   "let is_special = self.body.instructions[instr_idx].add_instr(instr);",
+   "self.instr_flag.has_special_instr |= is_special;", "}", "else{", "panic!('');", "}"]
+
+/-- FunctionModifier (src/ir/function.rs) `empty_alternate_at`: the alternate of the addressed instruction becomes the empty list (`c15_empty_alternate`) -/
+def modifier_empty_alternate_at : List String :=
+  ["if let Location::Module{", "instr_idx,..}", "= loc{",
+   "self.body.instructions[instr_idx].instr_flag.alternate = Some(InjectedInstrs::default());", "}", "else{",
+   "panic!('')}", "self"]
+
+/-- FunctionModifier (src/ir/function.rs) `empty_block_alt_at`: the block alternate becomes the empty list and the function is marked (`c22_empty_block_alt_marks`) -/
+def modifier_empty_block_alt_at : List String :=
+  ["if let Location::Module{", "instr_idx,..}", "= loc{", "self.body.instructions[instr_idx].empty_block_alt();",
+   "self.instr_flag.has_special_instr |= true;", "}", "else{", "panic!('')}", "self"]
+
+/-- ModuleIterator (src/iterator/module_iterator.rs) `inject`: at the cursor; a function-level mode, when one is selected, takes the code (M3 `injectCur`) -/
+def moditer_inject : List String :=
+  ["if let(Location::Module{", "func_idx,instr_idx,..}", ",..,)= self.curr_loc(){",
+   "match self.module.functions.get_mut(func_idx as FunctionID).kind{",
+   "FuncKind::Import(_)=> panic!(''),FuncKind::Local(ref mut l)=> l.add_instr(instr,instr_idx),}", "}", "else{",
+   "panic!('')}"]
+
+/-- ModuleIterator (src/iterator/module_iterator.rs) `inject_at`: selects the mode at (current function, given index), then adds there (M3 `injectAt`) -/
+def moditer_inject_at : List String :=
+  ["if let(Location::Module{", "func_idx,..}", ",..)= self.curr_loc(){", "let loc = Location::Module{",
+   "func_idx,instr_idx: idx,}", ";", "self.set_instrument_mode_at(mode,loc);", "self.add_instr_at(loc,instr);", "}",
+   "else{", "panic!('')}"]
+
+/-- ModuleIterator (src/iterator/module_iterator.rs) `set_instrument_mode_at`: leaves the function-level mode, sets the mode of the addressed instruction (`c22_instruction_mode_leaves_function_mode`) -/
+def moditer_set_instrument_mode_at : List String :=
+  ["if let Location::Module{", "func_idx,instr_idx,..}", "= loc{",
+   "match self.module.functions.get_mut(func_idx as FunctionID).kind{",
+   "FuncKind::Import(_)=> panic!(''),FuncKind::Local(ref mut l)=>{", "l.instr_flag.finish_instr();",
+   "l.body.instructions[instr_idx].instr_flag.current_mode = Some(mode)}", "}", "}", "else{", "panic!('')}"]
+
+/-- ModuleIterator (src/iterator/module_iterator.rs) `set_func_instrument_mode`: the function-level mode of the current function -/
+def moditer_set_func_instrument_mode : List String :=
+  ["if let(Location::Module{", "func_idx,..}", ",..)= self.mod_iterator.curr_loc(){",
+   "match self.module.functions.get_mut(func_idx as FunctionID).kind{",
+   "FuncKind::Import(_)=> panic!(''),FuncKind::Local(ref mut l)=> l.instr_flag.current_mode = Some(mode),}", "}",
+   "else{", "panic!('')}"]
+
+/-- ModuleIterator (src/iterator/module_iterator.rs) `clear_instr_at`: clears the list of that mode on the addressed instruction -/
+def moditer_clear_instr_at : List String :=
+  ["if let Location::Module{", "func_idx,instr_idx,..}", "= loc{",
+   "match self.module.functions.get_mut(func_idx as FunctionID).kind{",
+   "FuncKind::Import(_)=> panic!(''),FuncKind::Local(ref mut l)=>{", "l.clear_instr_at(instr_idx,mode);", "}", "}",
+   "}", "else{", "panic!('')}"]
+
+/-- ModuleIterator (src/iterator/module_iterator.rs) `add_instr_at`: adds to the addressed instruction (`c15_add_instr_at_addresses_its_location`) -/
+def moditer_add_instr_at : List String :=
+  ["if let Location::Module{", "func_idx,instr_idx,..}", "= loc{",
+   "match self.module.functions.get_mut(func_idx as FunctionID).kind{",
+   "FuncKind::Import(_)=> panic!(''),FuncKind::Local(ref mut l)=>{", "l.add_instr(instr,instr_idx);", "}", "}", "}",
+   "else{", "panic!('')}"]
+
+/-- ModuleIterator (src/iterator/module_iterator.rs) `empty_alternate_at`: the alternate of the addressed instruction becomes the empty list (`c15_empty_alternate`) -/
+def moditer_empty_alternate_at : List String :=
+  ["if let Location::Module{", "func_idx,instr_idx,..}", "= loc{",
+   "match self.module.functions.get_mut(func_idx).kind{",
+   "FuncKind::Import(_)=> panic!(''),FuncKind::Local(ref mut l)=>{",
+   "l.body.instructions[instr_idx].instr_flag.alternate = Some(InjectedInstrs::default())}", "}", "}", "else{",
+   "panic!('')}", "self"]
+
+/-- ModuleIterator (src/iterator/module_iterator.rs) `empty_block_alt_at`: the block alternate becomes the empty list and the function is marked (`c22_empty_block_alt_marks`) -/
+def moditer_empty_block_alt_at : List String :=
+  ["if let Location::Module{", "func_idx,instr_idx,..}", "= loc{",
+   "match self.module.functions.get_mut(func_idx as FunctionID).kind{",
+   "FuncKind::Import(_)=> panic!(''),FuncKind::Local(ref mut l)=>{",
+   "l.body.instructions[instr_idx].empty_block_alt();", "l.instr_flag.has_special_instr |= true;", "}", "}", "}",
+   "else{", "panic!('')}", "self"]
+
+/-- ComponentIterator (src/iterator/component_iterator.rs) `inject`: at the cursor; a function-level mode, when one is selected, takes the code (M3 `injectCur`) -/
+def compiter_inject : List String :=
+  ["if let(Location::Component{", "mod_idx,func_idx,instr_idx,..}", ",..,)= self.curr_loc(){",
+   "match self.comp.modules[*mod_idx as usize].functions.get_mut(func_idx).kind{",
+   "FuncKind::Import(_)=> panic!(''),FuncKind::Local(ref mut l)=> l.add_instr(instr,instr_idx),}", "}", "else{",
+   "panic!('')}"]
+
+/-- ComponentIterator (src/iterator/component_iterator.rs) `inject_at`: selects the mode at (current function, given index), then adds there (M3 `injectAt`) -/
+def compiter_inject_at : List String :=
+  ["if let(Location::Component{", "mod_idx,func_idx,..}", ",..,)= self.curr_loc(){",
+   "let loc = Location::Component{", "mod_idx,func_idx,instr_idx: idx,}", ";",
+   "self.set_instrument_mode_at(mode,loc);", "self.add_instr_at(loc,instr);", "}", "else{", "panic!('')}"]
+
+/-- ComponentIterator (src/iterator/component_iterator.rs) `set_instrument_mode_at`: leaves the function-level mode, sets the mode of the addressed instruction (`c22_instruction_mode_leaves_function_mode`) -/
+def compiter_set_instrument_mode_at : List String :=
+  ["if let Location::Component{", "mod_idx,func_idx,instr_idx,..}", "= loc{",
+   "match self.comp.modules[*mod_idx as usize].functions.get_mut(func_idx).kind{",
+   "FuncKind::Import(_)=> panic!(''),FuncKind::Local(ref mut l)=>{", "l.instr_flag.finish_instr();",
+   "l.body.instructions[instr_idx].instr_flag.current_mode = Some(mode)}", "}", "}", "else{", "panic!('')}"]
+
+/-- ComponentIterator (src/iterator/component_iterator.rs) `set_func_instrument_mode`: the function-level mode of the current function -/
+def compiter_set_func_instrument_mode : List String :=
+  ["if let(Location::Component{", "mod_idx,func_idx,..}", ",..,)= self.curr_loc(){",
+   "match self.comp.modules[*mod_idx as usize].functions.get_mut(func_idx).kind{",
+   "FuncKind::Import(_)=> panic!(''),FuncKind::Local(ref mut l)=> l.instr_flag.current_mode = Some(mode),}", "}",
+   "else{", "panic!('')}"]
+
+/-- ComponentIterator (src/iterator/component_iterator.rs) `clear_instr_at`: clears the list of that mode on the addressed instruction -/
+def compiter_clear_instr_at : List String :=
+  ["if let Location::Component{", "mod_idx,func_idx,instr_idx,..}", "= loc{",
+   "match self.comp.modules[*mod_idx as usize].functions.get_mut(func_idx).kind{",
+   "FuncKind::Import(_)=> panic!(''),FuncKind::Local(ref mut l)=> l.clear_instr_at(instr_idx,mode),}", "}", "else{",
+   "panic!('')}"]
+
+/-- ComponentIterator (src/iterator/component_iterator.rs) `add_instr_at`: adds to the addressed instruction (`c15_add_instr_at_addresses_its_location`) -/
+def compiter_add_instr_at : List String :=
+  ["if let Location::Component{", "mod_idx,func_idx,instr_idx,..}", "= loc{",
+   "match self.comp.modules[*mod_idx as usize].functions.get_mut(func_idx).kind{",
+   "FuncKind::Import(_)=> panic!(''),FuncKind::Local(ref mut l)=>{", "l.add_instr(instr,instr_idx);", "}", "}", "}",
+   "else{", "panic!('')}"]
+
+/-- ComponentIterator (src/iterator/component_iterator.rs) `empty_alternate_at`: the alternate of the addressed instruction becomes the empty list (`c15_empty_alternate`) -/
+def compiter_empty_alternate_at : List String :=
+  ["if let Location::Component{", "mod_idx,func_idx,instr_idx,..}", "= loc{",
+   "match self.comp.modules[*mod_idx as usize].functions.get_mut(func_idx).kind{",
+   "FuncKind::Import(_)=> panic!(''),FuncKind::Local(ref mut l)=>{",
+   "l.body.instructions[instr_idx].instr_flag.alternate = Some(InjectedInstrs::default());", "}", "}", "}", "else{",
+   "panic!('')}", "self"]
+
+/-- ComponentIterator (src/iterator/component_iterator.rs) `empty_block_alt_at`: the block alternate becomes the empty list and the function is marked (`c22_empty_block_alt_marks`) -/
+def compiter_empty_block_alt_at : List String :=
+  ["if let Location::Component{", "mod_idx,func_idx,instr_idx,..}", "= loc{",
+   "match self.comp.modules[*mod_idx as usize].functions.get_mut(func_idx).kind{",
+   "FuncKind::Import(_)=> panic!(''),FuncKind::Local(ref mut l)=>{",
+   "l.body.instructions[instr_idx].empty_block_alt();", "l.instr_flag.has_special_instr |= true;", "}", "}", "}",
+   "else{", "panic!('')}", "self"]
+
+/-- LocalFunction::add_instr: function level when a function mode is selected, else the instruction; a special mode marks the function (`c22_inject_marks`) -/
+def localfn_add_instr : List String :=
+  ["if self.instr_flag.current_mode.is_some(){", "self.instr_flag.add_instr(instr);", "}", "else{",
+   "let is_special = self.body.instructions[instr_idx].add_instr(instr);",
+   "self.instr_flag.has_special_instr |= is_special;", "}"]
+
+/-- LocalFunction::clear_instr_at: delegates to the body -/
+def localfn_clear_instr_at : List String :=
+  ["self.body.clear_instr(instr_idx,mode);"]
+
+/-- Body::clear_instr: the flag of the addressed instruction -/
+def body_clear_instr : List String :=
+  ["self.instructions[idx].instr_flag.clear_instr(mode);"]
+
 end Orca.ApiOutlineSpec
